@@ -47,7 +47,11 @@ class StmtMixin(object):
         pass
 
     def s_Import(self, s):
-        pass
+        from . import builtins_ as bi
+        for (mod, name, asname) in s.f.get('names', []):
+            v = bi.imported_name(self, mod, name)
+            if v is not None:
+                self.frame.env[asname] = v
 
     def s_Global(self, s):
         self.frame.globals_declared.update(s.names)
